@@ -38,16 +38,16 @@ PLANS = {
                      J('spawn', [2, 4], 1, 'cbsteal', thorough_only=True), J('spawn', [2, 4], 1, 'randsteal', thorough_only=True), S('joinrace', [2, 4], 1), D('spawn', [2, 4], 'JOIN_,CO_,SPAWN_,POOL_,RUN_,SCHED_'), H('spawn', [2], 'JOIN_WAIT_REGISTERED,JOIN_TRIGGER_STORED,CO_DONE_BEFORE_TRIGGER'), J('coldpin', [2, 4], 1, fresh=3, k=1, random=0), J('coldpin', [16], 1, fresh=3, k=1, random=0, thorough_only=True),
                      D('spawnp', [4], 'SPMC_,MPSC_'), J('spawnp', [2], 2, only_prefix='SPMC_BULK_LOADED', k=12, tk=24, random=0, trandom=0), J('yieldspin', W124, 1, k=2, random=4), S('yieldspin', [2, 4], 1), J('yieldspinio', [1, 2], 1, k=1, random=2)]},
     'C02': {'jobs': [J('park', W124, 4), J('park', [2], 1, 'asan'), S('parkrace', [2, 4], 2), D('park', [1, 2], 'PARK_,CANCEL_,YIELD_,THREADPARK_'), H('park', [2], 'PARK_SUB_STORED,PARK_SUB_RECHECKED,PARK_UNPARK_SWAPPED,PARK_AFTER_CLEAR'), J('park', [2], 1, fresh=3, k=1, random=0), J('yieldspin', [1, 2], 1, k=1, random=2)]},
-    'C05': {'jobs': [J('mutex', W124, 2), J('mutexc', W124, 2), J('relock', [1, 2], 1), J('cvc', [2], 1), J('mutexc', [2, 4], 1, 'asan'), S('hsmutex', [2, 4], 2), S('lockrace', [2, 4], 2), D('mutex', [1, 2], 'MUTEX_,SYNCBLOCKER_,PARK_'), D('mutexc', [2], 'MUTEX_,SYNCBLOCKER_,CANCEL_'), H('mutex', [2], 'MUTEX_LOCK_PUSHED,MUTEX_LOCK_COUNTED,MUTEX_UNLOCK_SUBBED')]},
+    'C05': {'jobs': [J('mutex', W124, 2), J('mutexc', W124, 2), J('relock', [1, 2], 1), J('cvc', [2], 1), J('mutexc', [2, 4], 1, 'asan'), S('hsmutex', [2, 4], 2), S('lockrace', [2, 4], 2), D('mutex', [1, 2], 'MUTEX_,SYNCBLOCKER_,PARK_'), D('mutexc', [2], 'MUTEX_,SYNCBLOCKER_,CANCEL_'), H('mutex', [2], 'MUTEX_LOCK_PUSHED,MUTEX_LOCK_COUNTED,MUTEX_UNLOCK_SUBBED'), J('stale', [1, 2], 1, k=1, random=2)]},
     'C06': {'jobs': [J('chan', W124, 4), J('chan', [2], 2, 'asan'), S('chanrace', [1, 2, 4], 2), D('chan', [1, 2], 'CH_,SEM_,SYNCBLOCKER_'), H('chan', [2], 'CH_MPSC_SEND_PUSHED,CH_MPSC_RECV_REGISTERED,CH_SPSC_SEND_PUSHED,CH_SPSC_SUB_STORED,CH_MPMC_SEND_PUSHED,CH_MPMC_RECV_EMPTY')]},
     'C07': {'jobs': [J('dis', W124, 3), J('disrx', W124, 1), J('dis', [2], 1, 'asan'), S('disrace', W124, 2), D('dis', [1, 2], 'CH_,SEM_'), H('dis', [2], 'CH_MPSC_DROPCHAN_BEFORE,CH_MPSC_RECV_REGISTERED,CH_SPSC_DROPCHAN_ZEROED,CH_SPSC_SUB_STORED,CH_MPMC_DROPTX_SUBBED,CH_MPMC_RECV_EMPTY')]},
     'C08': {'jobs': [J('tmr', W124, 3), J('tmrmix', W124, 1), J('tmr', [2, 4], 1, 'asan'), S('tmrrace', W124, 2), D('tmr', [1, 2], 'TT_,TL_,TIMER_,SLEEP_,LIST_,PARK_SUB'), H('tmr', [2], 'TT_ADD_BEFORE_WAKE,TT_BEFORE_PARK,TT_RUN_REGISTERED,TL_INSTALL_BH'), J('tmr', [2], 1, fresh=3, k=1, random=0), J('yieldspin', [1, 2], 1, k=1, random=2)]},
     'C09': {'jobs': [J('can', W124, 3), J('mutexc', [2], 1), J('semc', [1, 2], 1), J('cvc', [2], 1), J('relock', [2], 1), J('rwc', [2], 1), J('rwcr', [2], 1), J('iocan', [2], 1), J('iocant', [2], 1),
                      J('can', [2, 4], 1, 'asan'), S('hsmutex', [2], 1), S('hssem', [2], 1), D('can', [2], 'CANCEL_,PARK_SUB,MUTEX_CANCEL,SEM_,CV_')]},
-    'C10': {'jobs': [J('sem', W124, 2), J('semc', W124, 1), J('flag', W124, 1), J('semc', [2], 1, 'asan'), S('hssem', [2, 4], 2), S('semrace', [2, 4], 1), D('sem', [1, 2], 'SEM_,SYNCBLOCKER_'), D('semlock', [1, 2], 'SEM_,SYNCBLOCKER_'), J('semlock', [2, 4], 1), D('flag', [2], 'FLAG_'), H('sem', [2], 'SEM_WAIT_PUSHED,SEM_WAIT_SUBBED,SEM_POST_ADDED'), H('flag', [2], 'FLAG_WAIT_PUSHED,FLAG_WAIT_SUBBED,FLAG_FIRE_STORED')]},
-    'C11': {'jobs': [J('cv', W124, 2), J('cvc', W124, 1), J('relock', W124, 1), J('barc', W124, 1), J('bar', W124, 1), J('cvc', [2], 1, 'asan'), S('cvrace', [2, 4], 2), D('cv', [1, 2], 'CV_,SYNCBLOCKER_,MUTEX_'), D('cvc', [2], 'CV_,SYNCBLOCKER_,MUTEX_CANCEL'), H('cv', [2], 'CV_WAIT_PUSHED,CV_WAIT_UNLOCKED,CV_NOTIFY_POPPED,CV_ERR_CHECK')]},
+    'C10': {'jobs': [J('sem', W124, 2), J('semc', W124, 1), J('flag', W124, 1), J('semc', [2], 1, 'asan'), S('hssem', [2, 4], 2), S('semrace', [2, 4], 1), D('sem', [1, 2], 'SEM_,SYNCBLOCKER_'), D('semlock', [1, 2], 'SEM_,SYNCBLOCKER_'), J('semlock', [2, 4], 1), D('flag', [2], 'FLAG_'), H('sem', [2], 'SEM_WAIT_PUSHED,SEM_WAIT_SUBBED,SEM_POST_ADDED'), H('flag', [2], 'FLAG_WAIT_PUSHED,FLAG_WAIT_SUBBED,FLAG_FIRE_STORED'), J('stale', [1, 2], 1, k=1, random=2)]},
+    'C11': {'jobs': [J('cv', W124, 2), J('cvc', W124, 1), J('relock', W124, 1), J('barc', W124, 1), J('bar', W124, 1), J('cvc', [2], 1, 'asan'), S('cvrace', [2, 4], 2), D('cv', [1, 2], 'CV_,SYNCBLOCKER_,MUTEX_'), D('cvc', [2], 'CV_,SYNCBLOCKER_,MUTEX_CANCEL'), H('cv', [2], 'CV_WAIT_PUSHED,CV_WAIT_UNLOCKED,CV_NOTIFY_POPPED,CV_ERR_CHECK'), J('stale', [1, 2], 1, k=1, random=2)]},
     'C12': {'jobs': [J('rwseq', [1], 2), J('rw', W124, 2), J('rwc', W124, 2), J('rwcr', W124, 1), J('rwseq', [1], 1, 'rel'), J('rw', [2], 1, 'rel'),
-                     J('rw', [2, 4], 1, 'asan', thorough_only=True), D('rw', [1, 2], 'RW_'), D('rwc', [2], 'RW_,MUTEX_CANCEL'), H('rw', [2], 'RW_LOCK_PUSHED,RW_LOCK_COUNTED,RW_UNLOCK_SUBBED')]},
+                     J('rw', [2, 4], 1, 'asan', thorough_only=True), D('rw', [1, 2], 'RW_'), D('rwc', [2], 'RW_,MUTEX_CANCEL'), H('rw', [2], 'RW_LOCK_PUSHED,RW_LOCK_COUNTED,RW_UNLOCK_SUBBED'), J('stale', [1, 2], 1, k=1, random=2)]},
     'C13': {'jobs': [J('pan', W124, 3), J('pan', [2, 4], 2, 'asan'), D('pan', [2], 'CQ_,SCOPE_,PARK_SUB,RUN_')]},
     'C14': {'jobs': [J('scope', W124, 3), J('selc', W124, 1), J('scope', [2, 4], 1, 'asan'), J('selc', [2], 1, 'asan'), D('scope', [1, 2], 'SCOPE_,JOIN_,CQ_,CANCEL_'), H('selc', [2], 'CQ_DROP_PUSHED,CQ_POLL_COUNTED')]},
     'C15': {'jobs': [J('cls', W124, 3), J('pan', [2], 2), J('cls', [2, 4], 1, 'asan'), D('cls', [2], 'POOL_,SPAWN_,CO_,CANCEL_,YIELD_'), J('cls', [2], 1, fresh=3, k=1, random=0)]},
